@@ -3,7 +3,9 @@
    [exec (init m) acts] ranges over every interleaving, of any length, of the atomic
    steps of any number of NewStream calls (first attempt, blocking receive, retry,
    leaving on the context), stream closes, SETTINGS frames with any value (including 0)
-   and GOAWAY/Close, from any initial limit m. *)
+   and GOAWAY/Close, from any initial limit m.  The case runner's operations (among them
+   calls rejected for their header list size, SETTINGS frames carrying the parameter twice,
+   and a close that coincides with context cancellations) are sequences of these steps. *)
 From Coq Require Import List ZArith Bool Sorted.
 From VLib Require Import Codec Machine.
 From VModel Require Import StreamQuota.
@@ -95,24 +97,52 @@ Theorem C13_holds_on_every_model_trace : forall m0 ops, forallb op_wf ops = true
 Proof. exact model_trace_holds. Qed.
 Print Assumptions C13_holds_on_every_model_trace.
 
-Theorem C13_runner_steps_are_atomic_steps : forall s held tid op s' held' o, Inv s ->
-  op_step s held tid op = Some (s', held', o) -> exists acts, s' = exec s acts.
+Theorem C13_runner_steps_are_atomic_steps : forall s held e tid op s' held' e' o, Inv s ->
+  op_step s held e tid op = Some (s', held', e', o) -> exists acts, s' = exec s acts.
 Proof. exact op_step_reach. Qed.
 Print Assumptions C13_runner_steps_are_atomic_steps.
 
+(* A call whose header list exceeds the server's MAX_HEADER_LIST_SIZE is rejected before the
+   stream-quota check: it performs no step of the admission protocol (quota, ids and the
+   waiter count stay as they were; the ledger clause is evaluated on the implementation). *)
+Theorem C13_rejected_call_no_step : forall held e tid big hold, rej (hl e) big = true ->
+  new_call held e tid big hold = Some ([], held, e, 1).
+Proof. exact rejected_call_no_step. Qed.
+Print Assumptions C13_rejected_call_no_step.
+
+(* "the most recent MAX_CONCURRENT_STREAMS the server advertised": a SETTINGS frame that carries
+   the parameter twice acts exactly as one that carries its last value (RFC 7540 6.5.3). *)
+Theorem C13_duplicate_setting_last_wins : forall s held e tid u v,
+  op_step s held e tid [2; u; v] = op_step s held e tid [2; v].
+Proof. exact duplicate_setting_last_wins. Qed.
+Print Assumptions C13_duplicate_setting_last_wins.
+
 (* non-vacuity: limit 1; second and third call wait; limit lowered to 0, the open stream
    closes (quota back to 0: nobody admitted); a SETTINGS frame without the parameter changes
-   nothing; limit raised to 2: both admitted with ids 3, 5.
+   nothing; a frame carrying [5; 2] raises the limit to 2: both admitted with ids 3, 5.
    Second trace: limit 2, two streams open, two further callers are held between registering
    and parking; both streams end (one token, the second send finds the slot full); the first
    released caller takes the token and a slot and hands the token on, so the second released
-   caller is admitted too. *)
+   caller is admitted too.
+   Third trace: limit 1, MAX_HEADER_LIST_SIZE 2048: a big call is rejected and changes nothing;
+   a sender blocks on stream 1; one call parks, one is held; the client closes stream 1 while
+   the parked call's context is cancelled: the call was handed the token and opens stream 3,
+   the sender is released; the held call parks, a MAX_HEADER_LIST_SIZE change is not sent while
+   it waits; stream 3 ends: stream 5; MAX_HEADER_LIST_SIZE 16 rejects every further call. *)
 Example C13_witness :
-  run [1] [[1]; [1]; [1]; [2; 0]; [3; 0; 0]; [6; 7]; [2; 2]] =
-  Some [[0;0;1;0;0;0;0;1;1;1]; [0;1;1;1;0;0;0;0]; [0;2;1;2;0;0;0;0]; [-1;2;1;2;0;0;0;0];
-        [0;2;0;2;0;0;0;0]; [0;2;0;2;0;0;0;0]; [0;0;2;0;0;0;0;2;3;5;3;5]] /\
-  forallb op_wf [[1]; [1]; [1]; [2; 0]; [3; 0; 0]; [6; 7]; [2; 2]] = true /\
+  run [1] [[1]; [1]; [1]; [2; 0]; [3; 0; 0]; [6; 7]; [2; 5; 2]] =
+  Some [[0;0;1;0;0;0;0;0;1;0;0;1;1;1]; [0;1;1;1;0;0;0;0;1;0;0;0]; [0;2;1;2;0;0;0;0;1;0;0;0];
+        [-1;2;1;2;0;0;0;0;1;0;0;0]; [0;2;0;2;0;0;0;0;0;0;0;0]; [0;2;0;2;0;0;0;0;0;0;0;0];
+        [0;0;2;0;0;0;0;0;2;0;0;2;3;5;3;5]] /\
+  forallb op_wf [[1]; [1]; [1]; [2; 0]; [3; 0; 0]; [6; 7]; [2; 5; 2]] = true /\
   run [2] [[1]; [1]; [7]; [7]; [3; 0; 1]; [3; 0; 1]; [8; 0]; [8; 0]] =
-  Some [[1;0;1;0;0;0;0;1;1;1]; [0;0;2;0;0;0;0;1;3;3]; [0;1;2;1;1;0;0;0]; [0;2;2;2;2;0;0;0];
-        [1;2;1;2;2;0;0;0]; [2;2;0;2;2;0;0;0]; [1;1;1;1;1;0;0;1;5;5]; [0;0;2;0;0;0;0;1;7;7]].
+  Some [[1;0;1;0;0;0;0;0;1;0;0;1;1;1]; [0;0;2;0;0;0;0;0;2;0;0;1;3;3]; [0;1;2;1;1;0;0;0;2;0;0;0];
+        [0;2;2;2;2;0;0;0;2;0;0;0]; [1;2;1;2;2;0;0;0;1;0;0;0]; [2;2;0;2;2;0;0;0;0;0;0;0];
+        [1;1;1;1;1;0;0;0;1;0;0;1;5;5]; [0;0;2;0;0;0;0;0;2;0;0;1;7;7]] /\
+  run [1] [[9; 2048]; [10]; [1]; [12; 0]; [1]; [7]; [11; 0]; [8; 0]; [9; 16]; [3; 0; 0]; [9; 16]; [1]] =
+  Some [[1;0;0;0;0;0;0;0;0;0;0;0]; [1;0;0;0;0;0;0;1;0;0;0;0]; [0;0;1;0;0;0;0;0;1;0;0;1;1;1];
+        [0;0;1;0;0;0;0;0;1;1;0;0]; [0;1;1;1;0;0;0;0;1;1;0;0]; [0;2;1;2;1;0;0;0;1;1;0;0];
+        [0;1;1;1;1;0;0;0;1;0;0;1;3;3]; [0;1;1;1;0;0;0;0;1;0;0;0]; [0;1;1;1;0;0;0;0;1;0;0;0];
+        [0;0;1;0;0;0;0;0;1;0;0;1;5;5]; [0;0;1;0;0;0;0;0;1;0;0;0]; [0;0;1;0;0;0;0;1;1;0;0;0]] /\
+  forallb op_wf [[9; 2048]; [10]; [1]; [12; 0]; [1]; [7]; [11; 0]; [8; 0]; [9; 16]; [3; 0; 0]; [9; 16]; [1]] = true.
 Proof. vm_compute. repeat split; reflexivity. Qed.
